@@ -30,7 +30,7 @@ func (s *h) Ops() []seqmc.Op {
 	for k := -1; k <= s.u; k++ {
 		ops = append(ops, seqmc.Op{Name: "RemoveForward", A: k}, seqmc.Op{Name: "RemoveReverse", A: k})
 	}
-	return append(ops, seqmc.Op{Name: "Clear"}, seqmc.Op{Name: "Clone"})
+	return append(ops, seqmc.Op{Name: "Clear"}, seqmc.Op{Name: "Clone"}, seqmc.Op{Name: "CloneMutate"})
 }
 
 func (s *h) Apply(op seqmc.Op) *seqmc.Fail {
@@ -56,31 +56,45 @@ func (s *h) Apply(op seqmc.Op) *seqmc.Fail {
 	case "Clear":
 		s.b.Clear()
 		s.model = map[int]int{}
-	case "Clone":
-		c := s.b.Clone()
-		orig := s.b
-		keyOrig := fp.Of(orig)
-		s.b = &c
-		// independence, both directions, checked after every single mutation
-		c2 := orig.Clone()
+	case "Clone", "CloneMutate":
+		// independence is judged by what can be OBSERVED (sharing that no call sequence can see is no
+		// defect). "Clone": the search continues on the clone while the original, still alive, has
+		// been driven through every kind of mutation; "CloneMutate": a clone is driven through them and
+		// the search continues on the original. Damage that only shows later is found in the successors
+		// (the fingerprint of the surviving object is the state key).
 		muts := func(b *maps.Bimap[int, int]) []func() {
 			return []func(){
 				func() { b.Add(0, s.u-1) }, func() { b.Add(s.u-1, 0) }, func() { b.RemoveForward(1) },
 				func() { b.RemoveReverse(1) }, func() { b.Add(1, 1) }, func() { b.Clear() }, func() { b.Add(2, 2) },
 			}
 		}
-		for i, m := range muts(&c2) {
+		// three holders at a time (a copy-on-write scheme that tracks "shared" with one flag is right
+		// for two and wrong for three): "Clone" keeps clone A, mutates clone B, then the original;
+		// "CloneMutate" keeps the original, mutates clone A, then A's own clone B
+		cA := s.b.Clone()
+		var v1, v2 *maps.Bimap[int, int]
+		if op.Name == "Clone" {
+			cB := s.b.Clone()
+			v1, v2, s.b = &cB, s.b, &cA
+		} else {
+			cB := cA.Clone()
+			v1, v2 = &cA, &cB
+		}
+		obsBefore := fmt.Sprint(observe(s.b, s.u))
+		obs2 := fmt.Sprint(observe(v2, s.u))
+		for i, m := range muts(v1) {
 			m()
-			if fp.Of(orig) != keyOrig {
-				return seqmc.Failf("Clone:shares-state", "mutation %d of a clone changed the original", i)
+			if now := fmt.Sprint(observe(s.b, s.u)); now != obsBefore {
+				return seqmc.Failf("Clone:shares-state", "%s: mutation %d of another copy changed this one: %s -> %s", op.Name, i, obsBefore, now)
+			}
+			if now := fmt.Sprint(observe(v2, s.u)); now != obs2 {
+				return seqmc.Failf("Clone:shares-state", "%s: mutation %d of one copy changed a third one: %s -> %s", op.Name, i, obs2, now)
 			}
 		}
-		keyClone := fp.Of(s.b)
-		obsBefore := fmt.Sprint(observe(s.b, s.u))
-		for i, m := range muts(orig) {
+		for i, m := range muts(v2) {
 			m()
-			if fp.Of(s.b) != keyClone || fmt.Sprint(observe(s.b, s.u)) != obsBefore {
-				return seqmc.Failf("Clone:shares-state", "mutation %d of the original changed its clone", i)
+			if now := fmt.Sprint(observe(s.b, s.u)); now != obsBefore {
+				return seqmc.Failf("Clone:shares-state", "%s: mutation %d of the second other copy changed this one: %s -> %s", op.Name, i, obsBefore, now)
 			}
 		}
 	}
